@@ -264,8 +264,40 @@ func c02Gen(tier string, seed int64, idx int) c02Case {
 	return c
 }
 
-func c02Run(tier string, seed int64, idx int) *core.Result {
+func c02Run(tier string, seed int64, idx int) *core.Result { return c02RunTopo(tier, seed, idx, "") }
+
+// c02RunTopo runs case idx; a non-empty topo forces the topology (used by C16/C18).
+func c02RunTopo(tier string, seed int64, idx int, topo string) *core.Result {
 	c := c02Gen(tier, seed, idx)
+	if topo != "" && c.Topology != topo {
+		c = c02Gen(tier, seed, idx)
+		c.Topology = topo
+		if topo == "proxy" {
+			// stay below the proxy's per-destination buffer: at most 3 ping-pong style streams
+			if len(c.Streams) > 3 {
+				c.Streams = c.Streams[:3]
+			}
+			for i := range c.Streams {
+				p := &c.Streams[i]
+				if p.Park == "" {
+					p.Pair = []string{"bidi/pingpong-echo", "client/sendall-drainreply"}[i%2]
+					p.Kind = map[string]string{"bidi/pingpong-echo": "bidi", "client/sendall-drainreply": "client"}[p.Pair]
+					if p.N > 3 {
+						p.N = 3
+					}
+					p.K = 0
+				} else if p.N+p.M > 10 {
+					p.N, p.M, p.K = 2, 2, 0
+					if p.Pair == "bidi/sendall-return-early" || p.Pair == "client/return-early-reply" {
+						p.N, p.K = 2, 1
+						if p.Park == "close" {
+							p.K = 2
+						}
+					}
+				}
+			}
+		}
+	}
 	res := &core.Result{Verdict: core.Held, Sample: c}
 	setGMP(c.GMP)
 	h := bed.NewHooks()
